@@ -259,6 +259,11 @@ def property_oracle(ctx, case, o):
         key = 'unproved-srp-username:%s' % o['site']
         what = ('server completed a %s handshake WITHOUT SRP and recorded session.srpUsername=%r taken from the '
                 'unauthenticated ClientHello extension' % (o['ver'], idn['srp']))
+    elif o.get('checker_bypassed'):
+        key = 'checker-bypassed-by-resumption:%s' % o['site']
+        what = ('server Checker (x509Fingerprint) rejected the client certificate of a full %s handshake (TLSFingerprintError), but the '
+                'ticket had already been sent; the same client resumed and the call returned with session.clientCertChain=%r, '
+                'resumed=True, the Checker skipped (checkResumedSession=False is the default)' % (o['ver'], idn['client']))
     elif o.get('unproved_ticket_chain'):
         key = 'unproved-ticket-chain:%s:%s' % (o['site'], o['how'])
         what = ('server completed a full TLS 1.3 handshake with a peer that presented only an unusable ticket (%s, garbage binder, '
